@@ -47,7 +47,8 @@ def install_abstract():
 def engine(enabled):
     return fl.Engine("e", "", [fl.InputVariable("X", minimum=0, maximum=1, terms=[fl.Triangle("ON", 0.0, 0.5, 1.0)])],
         [fl.OutputVariable(n, minimum=0, maximum=1, enabled=enabled[n], aggregation=fl.Maximum(), defuzzifier=fl.Centroid(),
-                           terms=[fl.Triangle("LOW", 0.0, 0.25, 0.5), fl.Triangle("HIGH", 0.5, 0.75, 1.0)]) for n in ("A", "B", "C")], [])
+                           terms=[fl.Triangle("LOW", 0.0, 0.25, 0.5), fl.Triangle("HIGH", 0.5, 0.75, 1.0), fl.Constant("K", 0.5), fl.Linear("L", [0.5, 0.25]),
+                                  fl.Function("F", "0.5 * x")]) for n in ("A", "B", "C")], [])
 '''
 
 
@@ -64,7 +65,8 @@ def install_abstract(fl):
 def make_engine(fl, enabled):
     return fl.Engine("e", "", [fl.InputVariable("X", minimum=0, maximum=1, terms=[fl.Triangle("ON", 0.0, 0.5, 1.0)])],
                      [fl.OutputVariable(n, minimum=0, maximum=1, enabled=enabled[n], aggregation=fl.Maximum(), defuzzifier=fl.Centroid(),
-                                        terms=[fl.Triangle("LOW", 0.0, 0.25, 0.5), fl.Triangle("HIGH", 0.5, 0.75, 1.0)]) for n in OUTS], [])
+                                        terms=[fl.Triangle("LOW", 0.0, 0.25, 0.5), fl.Triangle("HIGH", 0.5, 0.75, 1.0), fl.Constant("K", 0.5), fl.Linear("L", [0.5, 0.25]),
+                                               fl.Function("F", "0.5 * x")]) for n in OUTS], [])
 
 
 def spec_degree(fl, hedges, d):
@@ -271,6 +273,10 @@ def _cases(tier, seed):
     for hs in hs_all:
         cases.append((("A", hs, "LOW"),))
     # two and three conclusions: hedged ones in every position, all permutations
+    # conclusions on Takagi-Sugeno terms (Constant, Linear, Function) are activations like any other: same degree, same implication
+    for t in ("K", "L", "F"):
+        cases.append((("A", (), t),))
+    cases.append((("A", ("very",), "K"), ("B", ("not",), "L"), ("A", (), "F")))
     base2 = [(("A", ("very",), "LOW"), ("B", (), "HIGH")), (("A", ("h1",), "LOW"), ("B", ("h2",), "HIGH")),
              (("A", ("not",), "LOW"), ("A", (), "HIGH")), (("A", ("any",), "LOW"), ("B", ("somewhat",), "LOW")),
              (("A", ("h1", "h2"), "HIGH"), ("B", ("not",), "LOW"))]
